@@ -87,30 +87,29 @@ Qed.
 Definition has_prefix (p : string) (s : string) : bool := prefix p s.
 Definition fuel := 4.
 
-(* The functions nothing may leave, and the one class the others still let through (known finding:
-   AASDataChecker raises NotImplementedError for a SubmodelElementList with order_relevant=False) *)
-Definition closed_functions : list string :=
-  ["json.check_schema"; "json.check_deserialization"; "xml.check_schema"; "xml.check_deserialization";
-   "aasx.check_schema"; "aasx.check_deserialization"].
-Definition allowed_for (f : string) : list exc :=
-  if mem_str f closed_functions then [] else [ENotImplemented].
-
 Lemma total_check :
-  forallb (fun f => esc_within (allowed_for f) (escapes functions fuel f)) public_functions = true.
+  forallb (fun f => esc_within [] (escapes functions fuel f)) public_functions = true.
 Proof. vm_compute. reflexivity. Qed.
 
-Lemma total_partial f : In f public_functions ->
-  exists l, escapes functions fuel f = EscOk l /\ incl l (allowed_for f).
+(* nothing leaves any public check function *)
+Lemma total f : In f public_functions -> escapes functions fuel f = EscOk [].
 Proof.
-  intros Hf. pose proof total_check as H. rewrite forallb_forall in H. apply esc_within_spec. now apply H.
+  intros Hf. pose proof total_check as H. rewrite forallb_forall in H.
+  destruct (esc_within_spec _ _ (H f Hf)) as [l [E Hl]]. rewrite E. f_equal.
+  destruct l as [|e l]; [reflexivity|]. destruct (Hl e (or_introl eq_refl)).
 Qed.
 
-Lemma total_schema_deser f : In f closed_functions -> escapes functions fuel f = EscOk [].
-Proof. intros [<-|[<-|[<-|[<-|[<-|[<-|[]]]]]]]; vm_compute; reflexivity. Qed.
+(* the six functions that compare data, and the handlers around their call of the data checker *)
+Definition comparing_functions : list string :=
+  ["json.check_aas_example"; "json.check_json_files_equivalence"; "xml.check_aas_example";
+   "xml.check_xml_files_equivalence"; "aasx.check_aas_example"; "aasx.check_aasx_files_equivalence"].
 
-Lemma total_refuted :
-  exists f, In f public_functions /\ escapes functions fuel f <> EscOk [].
-Proof. exists "json.check_json_files_equivalence". split; [vm_compute; tauto|vm_compute; discriminate]. Qed.
+Lemma comparing_catch f : In f comparing_functions ->
+  In f public_functions /\
+  exists hs, compare_handlers functions f = Some hs /\ caught ENotImplemented hs = true.
+Proof.
+  intros [<-|[<-|[<-|[<-|[<-|[<-|[]]]]]]]; (split; [vm_compute; tauto|]); eexists; split; vm_compute; reflexivity.
+Qed.
 
 (* ---------- data checker ------------------------------------------------------------------------------------ *)
 
@@ -170,3 +169,41 @@ Lemma tables_nonempty :
   List.length public_functions = 12 /\ 20 <= List.length class_table /\
   compared checker_methods 6 "check_entity_equal" <> [].
 Proof. split; [vm_compute; reflexivity|]. split; [vm_compute; lia|vm_compute; discriminate]. Qed.
+
+(* ---------- unordered lists ---------------------------------------------------------------------------------- *)
+
+(* equal data compare as equal, unless the method refuses unordered lists and one of the lists is unordered *)
+Lemma equiv_sound_partial m oa ob attrs (a b : record) :
+  (forall x, a x = b x) -> (mem_str m unordered_raises = false \/ (oa = true /\ ob = true)) ->
+  compare_obj unordered_raises m oa ob attrs a b = CmpEqual.
+Proof.
+  intros He H. unfold compare_obj. rewrite (compare_by_refl attrs a b He).
+  destruct H as [->|[-> ->]]; [reflexivity|]. cbn. now rewrite andb_false_r.
+Qed.
+
+(* ... and for two equal unordered SubmodelElementLists the checker refuses, which every comparing function
+   reports as a FAILED step *)
+Lemma unordered_equal_fails :
+  exists cls m attrs (a b : record),
+    In (cls, m, attrs) class_table /\ (forall x, a x = b x) /\
+    compare_obj unordered_raises m false false (compared checker_methods 6 m) a b = CmpNotImplemented /\
+    (forall f, In f comparing_functions ->
+       exists hs, compare_handlers functions f = Some hs /\
+                  compare_step (caught ENotImplemented hs) CmpNotImplemented = Some FAILED).
+Proof.
+  exists "SubmodelElementList", "check_submodel_element_list_equal",
+         ["id_short"; "type_value_list_element"; "value"; "semantic_id_list_element"; "value_type_list_element";
+          "order_relevant"; "display_name"; "category"; "description"; "semantic_id"; "qualifier"; "extension";
+          "supplemental_semantic_id"; "embedded_data_specifications"], (fun _ => 0), (fun _ => 0).
+  split; [vm_compute; tauto|]. split; [reflexivity|]. split; [vm_compute; reflexivity|].
+  intros f Hf. destruct (comparing_catch f Hf) as [_ [hs [E Hc]]]. exists hs. split; [assumption|].
+  cbn. now rewrite Hc.
+Qed.
+
+(* a comparing step always gets a status: the refusal never leaves a comparing function *)
+Lemma compare_step_total f r : In f comparing_functions ->
+  exists hs st, compare_handlers functions f = Some hs /\ compare_step (caught ENotImplemented hs) r = Some st.
+Proof.
+  intros Hf. destruct (comparing_catch f Hf) as [_ [hs [E Hc]]]. exists hs.
+  destruct r; cbn; rewrite ?Hc; eauto.
+Qed.
